@@ -102,7 +102,7 @@ def run(ctx, info):
     for _ in range(n):
         root = rng.choice(['act', 'bill', 'doc', 'statement', 'judgment', 'debateReport'])
         pfx = rng.choice(['', '', 'att_3'])
-        text = gen.doc_text(rng, root, corners=0.25, attrs_p=0.2).replace('\n\n', '\n') if rng.random() < 0.75 else twin_doc(rng)
+        text = gen.doc_text(rng, root, corners=0.25, attrs_p=0.2, scatter=False).replace('\n\n', '\n') if rng.random() < 0.75 else twin_doc(rng)
         if text[:1] == ' ':
             # the first line's own indentation is discarded by pre_parse (finding F13 of C12); cut provisions from consistently laid out text
             text = 'PREFACE\n  x\nBODY\n' + text if root in ('act', 'bill', 'doc', 'statement', 'debateReport') else 'INTRODUCTION\n' + text
